@@ -302,11 +302,16 @@ func (P *Program) globalObj(ex *Exec, g *ssa.Global) *Object {
 func (ex *Exec) callFunction(fn *ssa.Function, args []Value, bind []Value, site token.Pos) (ret Value) {
 	if len(ex.P.stubFns) > 0 && !ex.initMode {
 		if z, ok := ex.P.stubFns[fn.String()]; ok {
+			pass := strings.HasSuffix(z, "+") // "+": the stub receives the function's arguments
+			z = strings.TrimSuffix(z, "+")
 			h := intrinsics["github.com/whatap/golib/zzvf."+z]
 			if h == nil {
 				ex.unsupported("stub target zzvf.%s unknown", z)
 			}
 			ex.stub(fn.String() + " (replaced by zzvf." + z + ")")
+			if pass {
+				return h(ex, fn, args, site)
+			}
 			return h(ex, fn, nil, site)
 		}
 	}
